@@ -295,6 +295,8 @@ example :
     mapStylesKey (fun _ _ _ => 198) false { fg := some (.rgb 255 0 128) } = styleKey (sgrToStyle [[38], [2], [255], [0], [128]]) ∧
     (styleKey (Style.atDepth (fun _ _ _ => 198) false { fg := some (.rgb 255 0 128) })).2.1 ≠
       (styleKey (sgrToStyle [[38], [2], [255], [0], [128]])).2.1 := by
+  refine ⟨by rfl, ?_⟩
+  show (some (198, 255, 255, 255) : Option (Nat × Nat × Nat × Nat)) ≠ some (255, 0, 128, 0)
   decide
 
 /-! ### Truncation of over-long lines -/
